@@ -174,6 +174,12 @@ impl Session {
             {
                 return multicast.handle_rx(dl, bytes).into();
             }
+            // A frame addressed to another device is not ours, even when its MIC happens to
+            // verify under our key (devices provisioned with shared keys): the MIC covers the
+            // address the frame carries, not the one the session owns.
+            if encrypted_data.fhdr().dev_addr() != self.devaddr {
+                return Response::NoUpdate;
+            }
             let confirmed = encrypted_data.is_confirmed();
             let Some(fcnt) = next_fcnt_down(self.fcnt_down, encrypted_data.fhdr().fcnt()) else {
                 return Response::NoUpdate;
